@@ -23,7 +23,7 @@ def run(ctx):
              for kind, repeat in (("cbor", 0), ("json", 0), ("cbor", 2), ("json", 1), ("json", 2)) for icon in (False, True)
              for extra in ("none", "none", "thumb", "user_thumb", "ing_thumb", "ing_data", "ing_other_alg")]
     ctx.rng.shuffle(space)
-    n = 260 if ctx.quick else 6000
+    n = 260 if ctx.quick else 3000
     # make sure every value of every dimension occurs: greedy pick
     vecs, seen = [], set()
     for v in space:
